@@ -21,7 +21,7 @@ RULE = ('inputs = 4 seed requests x every applicable single mutation operator (r
         'character in a name, 64 KiB value, folded first header, duplicate/missing Host; Content-Length: abc, -1, 1e3, +5, two '
         'different values, 2**64; chunk size: zz, -1, empty; escapes \\x \\u12 \\N{ and trailing backslash in the first line and in '
         'headers; NUL bytes; non-ASCII; TLS and SSLv2 client hello; thorough: also every pair of operators on distinct fields); each '
-        'input delivered whole, and truncated at every offset (first 300 bytes, then every 4096) followed by disconnect; '
+        'input delivered whole, truncated at every offset (first 300 bytes, then every 4096) followed by disconnect, and cut into two reads at every offset below 200; '
         'non-trivial = every mutated or truncated input; distinct = distinct byte string')
 ASSUMPTIONS = [
     '"waits for more data" (no response, no close) is accepted for every input, as the statement allows',
@@ -241,14 +241,17 @@ def parse_responses(data):
     return out, None
 
 
-def run_input(data, cut=None):
-    """deliver data (or its prefix of length cut), probe the loop, disconnect; return observation dict"""
+def run_input(data, cut=None, rest=False):
+    """deliver data (or its prefix of length cut; with rest=True the remainder follows as a second read), probe the loop,
+    disconnect; return observation dict"""
     w = hh.HttpWorld(controllers=(Echo(),), dispatcher=False)
     obs = {}
     try:
         sock = w.new_sock()
         Echo.sentinel = 0
         w.feed(sock, data if cut is None else data[:cut])
+        if rest and cut is not None and sock not in w.closed:
+            w.feed(sock, data[cut:])
         w.root.fire(Event.create('sentinel'), 'web')
         w.settle()
         obs['sentinel'] = Echo.sentinel
@@ -319,21 +322,26 @@ def _work(part, nparts, payload):
     for idx, (name, data, sure) in enumerate(inputs(tier)):
         if idx % nparts != part:
             continue
-        cases = [None] + (truncations(data) if '+' not in name else [])
-        for cut in cases:
-            obs = run_input(data, cut)
+        cuts = truncations(data) if '+' not in name else []
+        cases = [(None, False)] + [(c, False) for c in cuts] + [(c, True) for c in cuts if c < 200]
+        for cut, rest in cases:
+            obs = run_input(data, cut, rest)
             st.executions += 1
-            st.interesting((name, cut))
-            st.outcome((name, cut, obs['written'][:200], obs['closed'], obs['requests'], tuple(obs['residue'])))
+            st.transitions += 3   # deliver, probe, disconnect
+            st.interesting((name, cut, rest))
+            st.outcome((name, cut, rest, obs['written'][:200], obs['closed'], obs['requests'], tuple(obs['residue'])))
             if cut is None and sure:
                 st.counters['malformed_for_sure_inputs'] += 1
             if obs['written'][9:12] in (b'400', b'500', b'505'):
                 st.counters['inputs_answered_with_error_response'] += 1
             if not obs['written'] and not obs['closed']:
                 st.counters['inputs_waited_on'] += 1
-            for kind, text in judge(name, data, sure, obs, cut is not None):
-                st.fail(kind, '%s [input %s%s: %r...]' % (text, name, '' if cut is None else ' truncated at %d' % cut, data[:70]),
-                        {'name': name, 'cut': cut, 'tier': tier})
+            if rest:
+                st.counters['two_segment_deliveries'] += 1
+            for kind, text in judge(name, data, sure, obs, cut is not None and not rest):
+                st.fail(kind + (':two-segments' if rest else ''), '%s [input %s%s: %r...]' % (
+                    text, name, '' if cut is None else (' cut in two reads at %d' % cut if rest else ' truncated at %d' % cut), data[:70]),
+                    {'name': name, 'cut': cut, 'rest': rest, 'tier': tier})
             if cut is None and len(st.samples) < 2 and 'clen' in name:
                 st.sample({'input': name, 'bytes': data[:200].decode('latin1'), 'written': obs['written'][:120].decode('latin1'), 'closed': obs['closed']})
     return st
@@ -355,8 +363,8 @@ def run(tier, seed, workers):
 def replay(wj):
     for name, data, sure in inputs(wj.get('tier', 'quick')):
         if name == wj['name']:
-            obs = run_input(data, wj['cut'])
-            bad = judge(name, data, sure, obs, wj['cut'] is not None)
+            obs = run_input(data, wj['cut'], wj.get('rest', False))
+            bad = judge(name, data, sure, obs, wj['cut'] is not None and not wj.get('rest', False))
             text = 'input %s (cut %r): %r\nwritten: %r\nclosed=%r requests=%r residue=%r sentinel=%r crashed=%r\n' % (
                 name, wj['cut'], data[:300], obs['written'][:300], obs['closed'], obs['requests'], obs['residue'], obs['sentinel'], obs['crashed'])
             text += ''.join('VIOLATED %s: %s\n' % b for b in bad) or 'all clauses hold\n'
